@@ -5,6 +5,8 @@
 //! adjacent doubles) and every member of deterministic structured families (n = 8..150, p = 1..6)
 //! is fitted by the real `DecisionTreeClassifier` / `DecisionTreeRegressor`; the node array is read
 //! back from the model's serde serialisation and judged by a brute-force oracle (`oracle.rs`).
+//! Extension (round 2): real-valued class-label tables (`ext = "tables"`) and regression targets
+//! with a large common offset (`ext = "offsets"`) on the lattices and the structured sets.
 
 mod data;
 mod mirror;
@@ -687,6 +689,14 @@ impl Harness for C05 {
                 ("reproduce_checked", 6_000),
                 ("pure_leaf_above_mss", 20_000),
                 ("argsort_unstable_among_ties", 100_000),
+                // extension (round 2): real-valued label tables, offset regression targets
+                ("ext_label_table_cases", 200_000),
+                ("cls_labels_span_k_minus_1_not_unit_spaced", 50_000),
+                ("cls_labels_same_integer_part", 8_000),
+                ("cls_labels_large", 20_000),
+                ("ext_offset_target_cases", 100_000),
+                ("reg_offset_opt_nodes", 100_000),
+                ("reg_offset_stump_choice_matters", 10_000),
             ],
             bounds: json!({
                 "builders": mc_sc::builders::BOUNDS,
@@ -701,6 +711,23 @@ impl Harness for C05 {
                 "configurations_lattice": "criterion {gini,entropy,classification error} x max_depth {None,1,2,3} x min_samples_leaf {1,2,3} x min_samples_split {0,2,3,4} (p=1 n=7: max_depth {None,2} x min_samples_leaf {1,2} x min_samples_split {0,3})",
                 "configurations_structured": if t { "n < 64: max_depth {None,1,2,3,4,5,8} x msl {1..5} x mss {0,1,2,3,5,8}; n >= 64: max_depth {None,2,3,8} x msl {1,2,5} x mss {0,2,8}" } else { "max_depth {None,2,3,8} x msl {1,2,5} x mss {0,2,8}" },
                 "argsort": format!("every vector over a 4-letter alphabet, n = 1..{}", amax),
+                "ext_label_tables": format!(
+                    "classification, label table chosen from {:?} (k = size of the table, every y with >= 2 classes): lattice p=1 every x in A^n and every permutation of n distinct values, n = 2..{}, criterion (3) x max_depth {{None,2}} x msl {{1,2}} x mss 0{}; structured sets n in {:?} x p in {:?} x 10 column rotations x 3 class patterns x 6 tables x max_depth {{None,2,8}} x msl {{1,2}} x mss {{0,2}}",
+                    data::REAL_TABLES,
+                    if t { 5 } else { 4 },
+                    if t { ", n = 6 with max_depth None, msl 1, mss 0" } else { ", n = 5 with max_depth None, msl 1, mss 0" },
+                    tns,
+                    tps
+                ),
+                "ext_offset_targets": format!(
+                    "regression, y = offset + small, offset chosen from {:?}, small in the target alphabet (lattice) / the 4 target patterns rounded to multiples of 2^-8 (structured), all sums exact: lattice p=1 every x in A^n, every y, n = 2..{} with max_depth {{1,2,None}} x msl {{1,2,3}} x mss {{0,3}}, n = {} with max_depth {{1,2,None}} x msl {{1,2}} x mss 0; p=2 n = 2{} (every x in A^(2n)), p=2 n = 2,3 every pair of permutations; structured sets n in {:?} x p in {:?} x 10 rotations x 3 offsets x 4 patterns x max_depth {{1,2,None}} x msl {{1,2,5}} x mss {{0,8}}",
+                    data::OFFSETS,
+                    if t { 5 } else { 4 },
+                    if t { 6 } else { 5 },
+                    if t { ",3 on that grid, n = 4 with max_depth {1,2,None}, msl 1, mss 0" } else { " on that grid, n = 3 with max_depth {1,2,None}, msl 1, mss 0" },
+                    ns,
+                    ps
+                ),
                 "per_case": format!("fit, predict (training rows + rows at/next to every threshold), refit, fit on features x 2^-3 and x 2^5; the bulk lattice jobs ({}) fit, predict and judge only", if t { "p=1 n=6,7; p=2 n=4; permutations p=1 n=6, p=2 n=4" } else { "p=1 n=5; p=2 n=3; permutations p=1 n=5" }),
             }),
         }
@@ -736,6 +763,7 @@ impl Harness for C05 {
             "routing convention: a row goes to true_child iff value <= threshold (the alternative '<' is accepted when it reproduces predict everywhere)".into(),
             "classification optimality / completeness / exact reproduction are demanded only when min_samples_leaf = 1 and the values within each feature are pairwise distinct, as in the statement".into(),
             "the tree fit with all features tried makes no random draw (checked: the RNG seam must stay silent)".into(),
+            "regression gains are computed from the node's centred targets (a squared-error reduction does not change when a constant is subtracted from the targets); a chosen threshold is accepted when its reduction is within max(64 m eps SST, 1e-9 best reduction) of the best one, never more than the former 1e-9 (sum y^2 + 1)".into(),
             "the RNG call sites of /repo/src equal /verif/rng_sites.allow (checked at start-up)".into(),
         ]
     }
